@@ -37,7 +37,6 @@ m = dict(
     checks=checks,
     notes="Technique family: runtime monitoring and sanitizers. See DESIGN.md.",
 )
-if na:
-    m["not_applicable"] = na
+m["not_applicable"] = na  # empty: every property is claimed (DESIGN.md section 8 lists the sub-claims out of reach)
 json.dump(m, open(os.path.join(ROOT, "MANIFEST.json"), "w"), indent=1)
 print("checks:", [c["property_id"] for c in checks], "pending:", [n["property_id"] for n in na])
